@@ -96,3 +96,30 @@ def task_func_program(task):
         except Exception as e:  # noqa
             out["goals"][g] = {"raised": type(e).__name__, "msg": str(e)[:300]}
     return out
+
+
+def task_func_dispatch(task):
+    """which branch of the REAL get_func_moment answers each request (the two branch methods are
+    replaced by probes in a subclass; get_func_moment itself is the inherited, real one)"""
+    from program.assignment import FunctionalAssignment
+    from program.assignment.exceptions import FunctionalAssignmentException
+
+    class Probe(FunctionalAssignment):
+        @classmethod
+        def get_trig_moment(cls, dist, func_powers):
+            return "TRIG"
+
+        @classmethod
+        def get_exp_moment(cls, dist, func_powers):
+            return "EXP"
+    out = []
+    for r in task["requests"]:
+        fp = {k: int(v) for k, v in r}
+        try:
+            o = Probe.get_func_moment(None, fp)
+            out.append(o if o in ("TRIG", "EXP") else "OTHER:" + repr(o)[:100])
+        except FunctionalAssignmentException as e:
+            out.append("RAISE:" + str(e))
+        except Exception as e:  # noqa
+            out.append("EXC:" + type(e).__name__ + ":" + str(e)[:100])
+    return {"outcomes": out}
